@@ -524,6 +524,36 @@ def burst_cases(rng, n, flavour):
     return out
 
 
+def sysarb_stopped_cases(rng, n):
+    """the System's own (initial) arbiter is stopped first (d:92 = System::arbiter().stop()); arbiters created under the system,
+    commands sent to them and the system stop must work as before: stop_with_code talks to the system controller, not to that arbiter"""
+    out = []
+    for r in range(n):
+        ops = []
+        na = rng.randint(0, 3)
+        pre = rng.randint(0, na)
+        for _ in range(pre):
+            ops.append("n:f")
+        ops.append("d:92")
+        for _ in range(na - pre):
+            ops.append("n:f")
+        for k in range(na):
+            if rng.random() < 0.5:
+                ops.append("sf:%d:c:%s" % (k, rng.choice("oh")))
+            if rng.random() < 0.25:
+                ops.append("st:%d:%s" % (k, rng.choice("oh")))
+        code = rng.choice(CODES)
+        ops.append("ss:%d:%s" % (code, rng.choice("ftf")))
+        if rng.random() < 0.3:
+            ops.append("ss:%d:f" % rng.choice([c for c in CODES if c != code]))
+        ops.append("wr")
+        for k in range(na):
+            ops.append("j:%d" % k)
+        seed = rng.randrange(1, 10 ** 6) * 4 + r % 4
+        out.append("%s %d %s" % ("R" if r % 3 == 0 else "W", seed, " ".join(ops)))
+    return out
+
+
 def busy_system_cases(rng, n):
     """the system thread is kept busy (d:90 ... d:91: it drains nothing) while arbiters are created, stopped early and the system is
     stopped: registrations, deregistrations and the exit command pile up in the system's command queue and must all be honoured"""
@@ -580,6 +610,7 @@ def check(ctx, pid):
         cases += gate_cases(ctx.rng, 150 if quick else 3000)
     if flavour == "c09":
         cases += busy_system_cases(ctx.rng, 120 if quick else 2500)
+        cases += sysarb_stopped_cases(ctx.rng, 60 if quick else 1200)
     cases += burst_cases(ctx.rng, 10 if quick else 200, flavour)
     for i, s in enumerate(scripts):
         base = ctx.rng.randrange(1, 10 ** 6) * 4
